@@ -185,6 +185,7 @@ def generate(contract, ov):
             for pi, part in enumerate(parts):
                 obs.append(Obligation("%s/%s" % (name0, cname), list(st2.pc), part,
                                       kind=cname.split(":")[0], props=props, witness=w,
+                                      concretise=info.get("concretise"),
                                       meta=dict(path=idx, outcome=kind, part=pi, nparts=len(parts), chain=chain)))
         for n, pred in cover_preds:
             c = pred(kind, payload, st2)
@@ -192,7 +193,8 @@ def generate(contract, ov):
                 cover_hits[n].append((st2, c))
     for (n, pc, goal) in cx.side_obligations:
         obs.append(Obligation("%s/%s" % (name0, n), pc, goal, kind=n.split("@")[0].split(":")[0],
-                              props=contract.properties, witness=dict(info.get("witness", {}))))
+                              props=contract.properties, witness=dict(info.get("witness", {})),
+                              concretise=info.get("concretise")))
     for n, hits in cover_hits.items():
         # cover: some path satisfying the predicate is feasible
         if not hits:
